@@ -751,7 +751,17 @@ def check_run_record_replay(ck, R):
     bn = rl.nodes(body)
 
     # ---- the literals the clauses speak about, recognised on what the tested expression *is* ---------------
+    def single_lookup(c):
+        """The reference a store look-up is made for: get_memento(ref), or the only slot of get_mementos([ref])."""
+        if _is_call_to(c, "get_memento") and c.args:
+            return c.args[0]
+        if _is_call_to(c, "get_mementos") and len(c.args) == 1 and isinstance(c.args[0], (ast.List, ast.Tuple)) and len(c.args[0].elts) == 1:
+            return c.args[0].elts[0]
+        return None
+
     def is_lookup(e):
+        if isinstance(e, ast.Subscript) and isinstance(e.slice, ast.Constant) and e.slice.value in (0, -1) and _is_call_to(e.value, "get_mementos"):
+            return single_lookup(e.value) is not None
         return _is_call_to(e, "get_memento")
 
     def is_valid(e):
@@ -783,7 +793,7 @@ def check_run_record_replay(ck, R):
         return bool(d) and all(any(kind(e, p) == "miss" for (e, p) in c) for c in d)
 
     # (a) with every "the look-up found nothing valid" edge removed, the body cannot be reached
-    lookup_calls = [c for c in rl.calls("get_memento")]
+    lookup_calls = [c for c in rl.calls("get_memento")] + [c for c in rl.calls("get_mementos") if is_lookup(rl.pm.get(c))]
     lookups = rl.nodes_all([c for c in lookup_calls if rl.unconditional(c)])
     cond_lookups = [c for c in lookup_calls if not rl.unconditional(c)]
     for c in cond_lookups:
@@ -930,7 +940,7 @@ def check_run_record_replay(ck, R):
     # memoize only if not already memoized: every state calling memoize has seen is_memoized(<this call>) answer no
     look_arg = None
     for c in lookup_calls:
-        a0 = rl.expand(c.args[0]) if c.args and rl.nodes(c) else None
+        a0 = rl.expand(single_lookup(c)) if single_lookup(c) is not None and rl.nodes(c) else None
         if a0 is not None and _is_call_to(a0, "fn_reference_with_arg_hash") and A.call_recv(a0) is not None:
             look_arg = A.norm(A.call_recv(a0))
     oki = look_arg is not None
@@ -965,9 +975,12 @@ def check_replay(ck, R):
     # what the function returns, per path class: ExistingMementoResult(result=<r>, valid_result=<v>) over the symbolic store
     fields = namedtuple_fields(ck, "runner", "ExistingMementoResult")
 
+    ck.need(len(pe_params) >= 3, "process_existing_memento(storage_backend, existing_memento, ignore_result): parameters not found")
+    p_memento, p_ignore = pe_params[1], pe_params[2]
+
     def watch(tx, e):
         it = A.isinstance_types(e)
-        return "ignore_result" in A.names_in(e) or "result_type" in A.attrs_in(e) or bool(it and "MementoException" in [t.split(".")[-1] for t in it[1]])
+        return p_ignore in A.names_in(e) or "result_type" in A.attrs_in(e) or bool(it and "MementoException" in [t.split(".")[-1] for t in it[1]])
 
     S = _runner_sym(ck, pe, watch=watch)
     read = {S.text(rr, env) for (env, _l) in S.at(rr)}
@@ -995,7 +1008,7 @@ def check_replay(ck, R):
     ck.ob(R, pe.key(None, "returns-read-value"), okv, "the value read back is returned as valid" if okv else
           "process_existing_memento does not return the value it read", pe.where())
     ign = [o for o in valid if o[2] == "None"]
-    oki = bool(ign) and all(("ignore_result", True) in o[1] for o in ign)
+    oki = bool(ign) and all((p_ignore, True) in o[1] for o in ign)
     ck.ob(R, pe.key(None, "ignore-means-valid-none"), oki, "(None, valid) is returned only under ignore_result" if oki else
           "a valid-but-empty answer is returned outside ignore_result", pe.where())
     # sibling agreement with the computing path (memento_run_local suppresses the value only when
@@ -1005,7 +1018,7 @@ def check_replay(ck, R):
             e = None if tx.startswith("@") else _parse(tx)
             if isinstance(e, ast.Compare) and isinstance(e.ops[0], (ast.Eq, ast.Is)) and not p:  # enum members: == and `is` agree
                 sides = [A.norm(e.left), A.norm(e.comparators[0])]
-                if "ResultType.exception" in sides and any(x.endswith(".invocation_metadata.result_type") and x.startswith("existing_memento") for x in sides):
+                if "ResultType.exception" in sides and any(x == p_memento + ".invocation_metadata.result_type" for x in sides):
                     return True
         return False
 
@@ -1058,11 +1071,63 @@ def check_replay(ck, R):
         vals = [v for (_r, _env, lits, v) in TS.return_states() if mark in lits]
         return bool(vals) and all(v == "self" for v in vals)
 
+    def suppressed_types(w):
+        out = []
+        for it_ in w.items:
+            c_ = it_.context_expr
+            if isinstance(c_, ast.Call) and A.call_attr(c_) == "suppress" and not c_.keywords:
+                for a_ in c_.args:
+                    a_ = mod_consts.get(a_.id, a_) if isinstance(a_, ast.Name) else a_
+                    out += [A.norm(x) for x in (a_.elts if isinstance(a_, ast.Tuple) else [a_])]
+        return out
+
+    def returns_self_after(stmt):
+        """Whatever runs after `stmt` (where control continues when an exception raised inside it is suppressed) can
+        only end by returning self."""
+        cur = stmt
+        nxt = None
+        while nxt is None:
+            par = tx.pm.get(cur)
+            if par is None or isinstance(par, (ast.For, ast.AsyncFor, ast.While)):
+                return False
+            for fld in ("body", "orelse", "finalbody"):
+                blk = getattr(par, fld, None)
+                if isinstance(blk, list) and cur in blk:
+                    rest = blk[blk.index(cur) + 1:]
+                    if rest:
+                        nxt = rest[0]
+                    elif isinstance(par, ast.Try) and fld == "body" and (par.orelse or par.finalbody):
+                        nxt = (par.orelse or par.finalbody)[0]
+                    break
+            else:
+                if isinstance(par, ast.ExceptHandler):
+                    pass
+                else:
+                    return False
+            if nxt is None:
+                if isinstance(par, (ast.FunctionDef, ast.AsyncFunctionDef)):
+                    return False  # falls off the end: returns None
+                cur = par
+        ids = tx.nodes(nxt)
+        if not ids:
+            return False
+        after = tx.cfg.reach(ids) | set(ids)
+        if any(isinstance(x, ast.Raise) and set(tx.nodes(x)) & after for x in A.walk_body(tx.node)) or falls_off & after:
+            return False
+        vals = [v for (r, _env, _lits, v) in TS.return_states() if set(tx.nodes(r)) & after]
+        return bool(vals) and all(v == "self" for v in vals)
+
     for (c, exc_names, what) in risky:
         covered = False
         n = c
         while n is not None and not covered:
             p = tx.pm.get(n)
+            if isinstance(p, (ast.With, ast.AsyncWith)) and any(tx.inside(c, b) for b in p.body):
+                sts_ = suppressed_types(p)
+                if (set(sts_) & (set(exc_names) | {"BaseException"})) or ("ImportError" in sts_ and "ModuleNotFoundError" in exc_names):
+                    if returns_self_after(p):
+                        covered = True
+                    break
             if isinstance(p, ast.Try) and any(tx.inside(c, b) for b in p.body):
                 for h in p.handlers:
                     hts = handler_types(h)
